@@ -633,6 +633,9 @@ struct Scenario {
     events: Vec<EvSpec>,
     params: Vec<Params>,
     workers: Vec<usize>,
+    /// how the backtest ids are formed: 0 "bt<n>", 1 "<n>" (decimal, not padded: "10" < "2"
+    /// lexicographically), 2 reverse-sorted, 3 neither sorted nor reverse-sorted, 4 all equal
+    ids: u8,
 }
 
 impl EvSpec {
@@ -694,6 +697,7 @@ impl Scenario {
             "events": self.events.iter().map(|e| e.to_json()).collect::<Vec<_>>(),
             "params": self.params.iter().map(|p| p.to_json()).collect::<Vec<_>>(),
             "workers": self.workers,
+            "ids": self.ids,
         })
     }
     fn from_json(v: &Value) -> Scenario {
@@ -710,6 +714,17 @@ impl Scenario {
                 .as_array()
                 .map(|a| a.iter().map(|x| x.as_u64().unwrap_or(1).max(1) as usize).collect())
                 .unwrap_or_default(),
+            ids: v["ids"].as_u64().unwrap_or(0) as u8,
+        }
+    }
+    /// the id given to backtest `bt`
+    fn id_of(&self, bt: usize) -> String {
+        match self.ids {
+            1 => format!("{bt}"),
+            2 => format!("r{:03}", 900 - bt),
+            3 => format!("k{}", (bt * 7 + 3) % 37),
+            4 => "same".to_string(),
+            _ => format!("bt{bt}"),
         }
     }
     /// the fatal tick, as (dataset position) of the market event on which some backtest sends an
@@ -863,6 +878,9 @@ struct RunObs {
     sum_ok: bool,
     connectivity_errors: u64,
     note: String,
+    /// which backtest's id the summary found at this run's position carries (alone: itself;
+    /// 9999 = no backtest of the batch has that id)
+    pos_id: usize,
 }
 
 fn canon(v: &Value) -> String {
@@ -993,7 +1011,7 @@ struct Prepared<MD> {
 fn make_dynamic(sc: &Scenario, bt: usize) -> (BacktestArgsDynamic<Strat, Risk>, Arc<Mutex<Sink>>) {
     let sink = Arc::new(Mutex::new(Sink::default()));
     let d = BacktestArgsDynamic {
-        id: SmolStr::new(format!("bt{bt}")),
+        id: SmolStr::new(sc.id_of(bt)),
         risk_free_return: Decimal::new(5 + bt as i64, 2),
         strategy: Strat {
             id: StrategyId::new(format!("s{bt}")),
@@ -1008,6 +1026,7 @@ fn make_dynamic(sc: &Scenario, bt: usize) -> (BacktestArgsDynamic<Strat, Risk>, 
 }
 
 fn observe(
+    sc: &Scenario,
     bt: usize,
     workers: usize,
     outcome: u8,
@@ -1030,6 +1049,11 @@ fn observe(
         sum_ok: false,
         connectivity_errors: sink.connectivity_errors,
         note,
+        pos_id: match summary {
+            None => bt,
+            Some(sum) if sum.id == sc.id_of(bt) => bt,
+            Some(sum) => (0..sc.params.len()).find(|&j| sum.id == sc.id_of(j)).unwrap_or(9999),
+        },
     };
     if let Some(fs) = &sink.final_state {
         let (ff, st, n) = fingerprints(fs, &sink.log);
@@ -1039,7 +1063,7 @@ fn observe(
         if let Some(sum) = summary {
             let (fp, ok, pnl, note) = judge_summary(sum, fs, rfr);
             obs.fp_summary = fp;
-            obs.sum_ok = ok && sum.id == format!("bt{bt}");
+            obs.sum_ok = ok && sum.id == sc.id_of(bt);
             obs.pnl = pnl;
             obs.note.push_str(&note);
         }
@@ -1078,7 +1102,7 @@ where
             Ok(Ok(Err(e))) => (1, format!("{e:?}").chars().take(200).collect(), None),
             Ok(Ok(Ok(s))) => (0, String::new(), Some(s)),
         };
-        out.push(observe(bt, 0, outcome, note, sum.as_ref(), &sinks[0]));
+        out.push(observe(sc, bt, 0, outcome, note, sum.as_ref(), &sinks[0]));
     } else {
         let res = rt.block_on(async move {
             tokio::time::timeout(run_timeout(), AssertUnwindSafe(run_backtests(args, dyns)).catch_unwind()).await
@@ -1098,16 +1122,16 @@ where
             let (o, n, sum) = match &multi {
                 None => (outcome, note.clone(), None),
                 Some(m) => {
-                    let want = format!("bt{bt}");
-                    let matches: Vec<_> = m.summaries.iter().filter(|s| s.id == want).collect();
-                    if matches.len() == 1 && m.num_backtests == bts.len() && m.summaries.len() == bts.len() {
-                        (0, String::new(), Some(matches[0]))
+                    // POSITIONAL: the summary returned at position `pos` is the one returned for
+                    // the `pos`-th BacktestArgsDynamic
+                    if m.num_backtests == bts.len() && m.summaries.len() == bts.len() {
+                        (0, String::new(), m.summaries.get(pos))
                     } else {
-                        (4, format!("{} summaries with id {want} of {}", matches.len(), m.summaries.len()), None)
+                        (4, format!("{} summaries for {} backtests", m.summaries.len(), bts.len()), None)
                     }
                 }
             };
-            out.push(observe(bt, workers, o, n, sum, &sinks[pos]));
+            out.push(observe(sc, bt, workers, o, n, sum, &sinks[pos]));
         }
     }
     rt.shutdown_timeout(Duration::from_millis(if out.iter().all(|o| o.outcome == 0) { 2000 } else { 50 }));
@@ -1257,9 +1281,10 @@ fn render(sc: &Scenario, keys: &[String], runs: &[RunObs]) -> (String, Vec<Strin
         });
         let fp = fnv(&format!("{}##{}##{}", r.fp_fills, r.fp_state, r.fp_summary));
         run_terms.push(format!(
-            "(mkRun {} {} {} {} {} {} {} {})",
+            "(mkRun {} {} {} {} {} {} {} {} {})",
             n(r.bt as u128),
             n(r.workers as u128),
+            n(r.pos_id as u128),
             n(r.outcome as u128),
             list(&items),
             n(fp as u128),
@@ -1292,6 +1317,10 @@ fn render(sc: &Scenario, keys: &[String], runs: &[RunObs]) -> (String, Vec<Strin
         tag("fatal_tick");
     }
     tag(&format!("backtests_{}", sc.params.len()));
+    tag(&format!("id_scheme_{}", sc.ids));
+    if runs.iter().any(|r| r.pos_id != r.bt) {
+        tag("summary_position_mismatch");
+    }
     let coq = format!(
         "(mkCase {} {} {} {} {})",
         b(sc.paced),
@@ -1326,6 +1355,7 @@ fn emit(em: &mut Emitter, stream: &'static str, sc: &Scenario) {
                 pnl: Decimal::ZERO,
                 sum_ok: false,
                 connectivity_errors: 0,
+                pos_id: 0,
                 note: format!("harness-level panic: {msg}"),
             };
             (keys, vec![run])
@@ -1452,6 +1482,34 @@ fn gen_scenario(r: &mut Rng, paced: bool, max_ev: usize, max_bt: usize, adversar
         events: gen_events(r, n, 2, adversarial),
         params,
         workers: vec![1, 2, 8],
+        ids: *r.pick(&[0u8, 0, 1, 1, 2, 3, 4]),
+    }
+}
+
+/// batches of 11..=16 backtests over a small dataset, ids numeric and not padded ("10" sorts
+/// before "2"), reverse-sorted, unsorted or all equal; the strategy parameters (hence the run
+/// times, hence the completion order) differ per backtest. What comes back at position i must
+/// be backtest i's own summary.
+fn gen_big_batch(r: &mut Rng, paced: bool, ids: u8) -> Scenario {
+    let n = 2 + r.below(7) as usize;
+    let nbt = 11 + r.below(6) as usize;
+    let mut params = gen_params(r, nbt);
+    for (i, p) in params.iter_mut().enumerate() {
+        // spread the amount of work: early backtests trade on every event, late ones rarely
+        p.k = 1 + (i as u64 * 5) % 4;
+        p.m = 2 + (i as u64 * 3) % 5;
+    }
+    Scenario {
+        paced,
+        with_unlinked: false,
+        latency_ms: *r.pick(&[0u64, 0, 1]),
+        fee_bp: 10,
+        quote_balance: 1_000_000,
+        base_balance: 1_000,
+        events: gen_events(r, n, 2, false),
+        params,
+        workers: vec![*r.pick(&[1usize, 2]), 8],
+        ids,
     }
 }
 
@@ -1482,6 +1540,7 @@ fn gen_fatal(r: &mut Rng, max_ev: usize) -> Scenario {
         events,
         params,
         workers: vec![],
+        ids: 0,
     }
 }
 
@@ -1517,6 +1576,7 @@ fn table(em: &mut Emitter) {
             .map(|i| Params { k: 1 + i as u64, m: 2 + i as u64, max_units: 1 + i as u32, lot_milli: 1000, fatal: None })
             .collect(),
         workers: vec![1, 2],
+        ids: 0,
     };
     let patterns: Vec<Vec<u8>> = vec![
         vec![0],
@@ -1540,6 +1600,19 @@ fn table(em: &mut Emitter) {
                 emit(em, "table", &base(paced, mk(p), nbt));
             }
         }
+    }
+    // a batch of 12 with ids "0".."11" (and the other id schemes): position i <-> backtest i
+    for (paced, ids) in [(false, 1u8), (true, 1), (true, 2), (false, 3), (true, 4)] {
+        let mut sc = base(paced, mk(&[0, 0, 1, 0]), 12);
+        for (i, p) in sc.params.iter_mut().enumerate() {
+            p.k = 1 + (i as u64 % 3);
+            p.m = 2 + (i as u64 % 4);
+            p.max_units = 1 + (i as u32 % 3);
+            p.lot_milli = [1000i64, 500, 250, 2000][i % 4];
+        }
+        sc.ids = ids;
+        sc.workers = vec![2, 8];
+        emit(em, "table", &sc);
     }
     // fatal tick at every position of a 4-event dataset on the unlinked instrument
     for c in 1..=4u64 {
@@ -1566,6 +1639,7 @@ fn main() {
         "gen" => {
             let mut r = Rng::new(args.seed);
             let thorough = args.tier == "thorough";
+            let n_big = if thorough { 30 } else { 10 };
             let (n_paced, n_plain, n_adv, n_fatal, max_ev, max_bt) =
                 if thorough { (160, 60, 80, 40, 60, 32) } else { (60, 20, 30, 12, 24, 8) };
             table(&mut em);
@@ -1580,6 +1654,10 @@ fn main() {
             for i in 0..n_adv {
                 let sc = gen_scenario(&mut r, i % 2 == 0, max_ev, max_bt.min(4), true);
                 emit(&mut em, "adversarial", &sc);
+            }
+            for i in 0..n_big {
+                let sc = gen_big_batch(&mut r, i % 3 != 2, [1u8, 2, 1, 3, 1, 4, 0][i % 7]);
+                emit(&mut em, "random", &sc);
             }
             for _ in 0..n_fatal {
                 let sc = gen_fatal(&mut r, max_ev);
